@@ -1384,6 +1384,10 @@ where
                         }
                     }
 
+                    // `poll_request` refuses to decode while the pipeline queue is full; requests
+                    // that are already buffered then have to be picked up once the queue drains
+                    let pipeline_was_full = inner.messages.len() >= MAX_PIPELINED_MESSAGES;
+
                     inner.as_mut().poll_request(cx)?;
 
                     if should_disconnect {
@@ -1523,7 +1527,18 @@ where
                         && !inner_p.flags.contains(Flags::READ_DISCONNECT)
                         && inner_p.messages.len() < MAX_PIPELINED_MESSAGES;
 
+                    // The pipeline queue was full when this poll started, so buffered requests were
+                    // left undecoded, and the queue has drained since (handlers that complete
+                    // without returning `Pending` never reach the nested `poll_request`). The peer
+                    // may have sent everything it is going to send: schedule another poll to
+                    // decode what is buffered instead of waiting for the socket.
+                    let resume_decode = pipeline_was_full
+                        && inner_p.messages.len() < MAX_PIPELINED_MESSAGES
+                        && !inner_p.read_buf.is_empty()
+                        && !inner_p.flags.contains(Flags::READ_DISCONNECT);
+
                     if resume_read
+                        || resume_decode
                         || drain_dropped_payload
                         || inner_p.flags.intersects(Flags::LINGER | Flags::SHUTDOWN)
                     {
